@@ -18,7 +18,7 @@ pub fn prop() -> Prop {
         check,
         quick_runs: 30_000,
         both_profiles: false,
-        rule: "a run = multi-aircraft traffic into which the channel injects copies of valid DF11/17/18 squitters hit by an error pattern confined to bits 6..n (run index enumerates all single-bit, all double-bit and all (start,length<=24) burst patterns round-robin, plus heavy random ones) at chosen points of the history (before the aircraft is known, after its first frame, between an even/odd pair, at the sweep edge); -D /dev/null or an unwritable -D target; non-trivial = at least one detectably corrupted squitter was delivered to a non-empty table",
+        rule: "a run = multi-aircraft traffic into which the channel injects copies of valid DF11/17/18 squitters hit by an error pattern confined to bits 6..n (run index enumerates all single-bit, all double-bit and all (start,length<=24) burst patterns round-robin, plus heavy random ones) at chosen points of the history (before the aircraft is known, after its first frame, between an even/odd pair, at the sweep edge); -D /dev/null or an unwritable -D target; repeated damaged squitters; a fixed ground-station interrogator code in half of the runs; every 10 000th run index is a stream of 100 010+ clean lines followed by damaged squitters; non-trivial = at least one detectably corrupted squitter was delivered to a non-empty table",
         level_text: "seeded exploration with bit-flip injection on in-flight squitters; oracle: table bit-for-bit unchanged (time stamps included, clock frozen) and no output when the reference CRC-24 syndrome says the frame must be rejected; DF11 with interrogator-code-only syndrome must be applied",
     }
 }
